@@ -169,6 +169,29 @@ int main() {
             for (auto& t : cs) t.join();
             std::cout << " | got=" << before << " consumers=" << consumers << "\n";
         }
+        else if (cmd == "W") {
+            // consumers blocked on an empty queue; wake_up() with a push landing right behind it: every consumer is released
+            int consumers; unsigned seed;
+            is >> consumers >> seed;
+            threadsafe_queue<int> q;
+            std::atomic<int> got{0}, released{0}, entered{0};
+            std::vector<std::thread> cs;
+            for (int c = 0; c < consumers; ++c)
+                cs.emplace_back([&] { entered.fetch_add(1); for (;;) { auto p = q.wait_and_pop(); if (!p) break; got.fetch_add(1); } released.fetch_add(1); });
+            while (entered.load() < consumers) std::this_thread::sleep_for(std::chrono::microseconds(50));
+            std::this_thread::sleep_for(std::chrono::milliseconds(seed % 3));   // consumers blocked / about to block
+            std::mt19937 r(seed);
+            q.wake_up();
+            if (seed % 4 == 1) jitter(r);
+            for (unsigned i = 0; i < 1 + seed % 2; ++i) q.push((int)i);
+            auto deadline = std::chrono::steady_clock::now() + std::chrono::seconds(3);
+            while (released.load() < consumers && std::chrono::steady_clock::now() < deadline) std::this_thread::sleep_for(std::chrono::microseconds(100));
+            int rel = released.load();
+            // let the run end whatever happened: wake again until everybody is out
+            while (released.load() < consumers) { q.wake_up(); std::this_thread::sleep_for(std::chrono::milliseconds(1)); }
+            for (auto& t : cs) t.join();
+            std::cout << " | released=" << rel << " consumers=" << consumers << "\n";
+        }
         std::cout.flush();
     }
     return 0;
